@@ -1148,6 +1148,10 @@ def from_wire_parser(parser: dns.wirebase.Parser) -> Name:
 
     labels = []
     biggest_pointer = parser.current
+    # The name occupies the octets up to and including its root label or its
+    # first compression pointer; parsing resumes right after them (and not at the
+    # furthest octet read while following pointers).
+    resume = None
     with parser.restore_furthest():
         count = parser.get_uint8()
         while count != 0:
@@ -1157,12 +1161,17 @@ def from_wire_parser(parser: dns.wirebase.Parser) -> Name:
                 current = (count & 0x3F) * 256 + parser.get_uint8()
                 if current >= biggest_pointer:
                     raise BadPointer
+                if resume is None:
+                    resume = parser.current
                 biggest_pointer = current
                 parser.seek(current)
             else:
                 raise BadLabelType
             count = parser.get_uint8()
         labels.append(b"")
+    if resume is not None:
+        parser.seek(resume)
+        parser.furthest = resume
     return Name(labels)
 
 
